@@ -294,6 +294,12 @@ def r08d(ctx):
                 for lp in loops:
                     if lp[2][0] == 'elem':          # for n in <component>
                         group = lp[2]
+                if group is None and any(need.values()) and is_frozen:
+                    # a frozen masker created outside the node loop of the group (the group
+                    # whose width nothing defines): its guard mentions the three tests only
+                    # through the value of the masker chosen before; nothing to quantify here,
+                    # the trainable site carries the obligation
+                    need = dict.fromkeys(need, False)
                 if group is None and any(need.values()):
                     raise AnalysisError('R08d: width-group loop of build_shared_features_map '
                                         'not found')
